@@ -42,6 +42,10 @@ impl Validatable<IggyError> for GetSnapshot {
             error!("When using 'All' snapshot type, no other types can be specified");
             return Err(IggyError::InvalidCommand);
         }
+        if self.snapshot_types.len() > u8::MAX as usize {
+            error!("Too many snapshot types");
+            return Err(IggyError::InvalidCommand);
+        }
         Ok(())
     }
 }
